@@ -133,6 +133,26 @@ def classify_exc(tb_text: str) -> str:
     return f"{exc}@{func}"
 
 
+_runs = 0
+
+
+def cleanup() -> None:
+    """Keep a long-lived worker's memory flat: mypy.main raises the GC thresholds process-wide (whole build graphs
+    pile up as uncollected cycles) and SourceFinder._crawl_up_helper's class-level lru_cache pins FileSystemCaches.
+    Neither affects results; both made 16 workers exceed memory (OOM kills seen as 'worker died rc=-9')."""
+    global _runs
+    import gc
+    _runs += 1
+    try:
+        from mypy.find_sources import SourceFinder
+        SourceFinder._crawl_up_helper.cache_clear()  # type: ignore[attr-defined]
+    except Exception:
+        pass
+    gc.set_threshold(700, 10, 10)
+    if _runs % 3 == 0:
+        gc.collect()
+
+
 def run_mypy(args: list[str], cwd: str | None = None, capture: bool = False,
              env: dict[str, str] | None = None) -> dict[str, Any]:
     """In-process equivalent of `python -m mypy args` run from cwd."""
@@ -172,6 +192,7 @@ def run_mypy(args: list[str], cwd: str | None = None, capture: bool = False,
     finally:
         sys.stdout, sys.stderr = old_out, old_err
         os.chdir(old_cwd)
+        cleanup()
         for k, v in old_env.items():
             if v is None:
                 os.environ.pop(k, None)
